@@ -1705,6 +1705,12 @@ def size_default(r: R, chk, quals: List[str], exact: List[str], rule="SIZE-DEFAU
             undec = False
             for p in range(max_degree + 1):
                 env = {a: UNK for a in fi.params}
+                # "the caller passes None": every optional parameter whose default is None (the size may reach the call under
+                # another name after a helper was inlined)
+                args_ = fi.node.args
+                for a_, d_ in zip(args_.args[len(args_.args) - len(args_.defaults):], args_.defaults):
+                    if isinstance(d_, ast.Constant) and d_.value is None and "node" in a_.arg.lower():
+                        env[a_.arg] = None
                 env[mparam] = K
                 if size_param:
                     env[size_param] = None
